@@ -367,14 +367,10 @@ def coq_block(b):
 
 PRELUDE = """From Coq Require Import ZArith List QArith String.
 From DS Require Import Base.ZMat Base.SGDefs Base.C09_GNum Model.GroupCheck Model.C09_Prims Model.C09_AtomADP.
-From DS Require Import Model.C11_LookupDefs Model.C11_Checks Gen.SGTables Gen.LookupSpec Model.C07_Text Model.C07_SymopText Model.C07_CifRead.
+From DS Require Import Model.C11_LookupDefs Model.C07_Text Model.C07_SymopText Model.C07_CifRead Model.C07_Pre.
 Import ListNotations.
 Open Scope Z_scope.
 Open Scope string_scope.
-Definition fpt := Eval vm_compute in fp_table all_settings.
-Definition find (ops : list symop) : option (setting * bool) :=
-  match fp_lookup_last fpt (fingerprint ops) None with Some s => Some (s, same_order (sg_ops s) ops) | None => None end.
-Definition Tb := Eval vm_compute in match the_table with Some t => t | None => [] end.
 Definition qz (x : Q) : list Z := let y := Qred x in [Qnum y; Zpos (Qden y)].
 Definition enc_src (s : sgsrc) : list Z :=
   match s with FromOps s => [0; sg_number s] | FromOpsReordered s => [1; sg_number s] | FromId s => [2; sg_number s] | Custom => [3; 0] end.
@@ -392,7 +388,7 @@ Definition eps_q : Q := @EPS@.
 
 def coq_case(b):
     L = lattice(b["cellnum"])
-    return "Eval vm_compute in enc (read_cif (QE pi_q eps_q %s %s %d) find Tb %s)." % (coq_lat(L), qm(L["recbase"]), GRID, coq_block(b))
+    return "Eval vm_compute in enc (read_cif (QE pi_q eps_q %s %s %d) find_fast Tb_fast %s)." % (coq_lat(L), qm(L["recbase"]), GRID, coq_block(b))
 
 
 TOK = re.compile(r'"((?:[^"]|"")*)"|(-?\d+)')
